@@ -235,7 +235,28 @@ pub fn inputs_c04(r: &mut Rng, n: usize, _tier: &str, out: &mut dyn Write) {
     }
 }
 
+/// `precise_timescale_conversion` with the zero polynomial, reference epoch in the target's scale, the epoch's scale or a
+/// third one, at a gap of nothing, minutes, a day or years (seeded change C07-8: a fast path `reference + (self - reference)`
+/// when the reference is already in the target scale, which freezes the ET/TDB periodic term at the reference epoch)
+fn precise0_lines(r: &mut Rng, out: &mut dyn Write, srcs: &[&str], tgts: &[&str], k: usize) {
+    const ALL9: [&str; 9] = ["TAI", "TT", "UTC", "GPST", "GST", "BDT", "QZSST", "ET", "TDB"];
+    for _ in 0..k {
+        let a = *r.pick(srcs);
+        let b = *r.pick(tgts);
+        if a == b {
+            continue;
+        }
+        let inst = (r.range_i64(-36_525, 73_050) as i128) * DAY + r.below(DAY as u64) as i128; // 1800 .. 2100, TAI count
+        let e = s2e(&format!("{}:TAI", dstr(inst))).to_time_scale(s2ts(a));
+        let gap = (if r.chance(1, 2) { 1 } else { -1 }) * match r.below(5) { 0 => 0, 1 => 120 * SEC + r.below(3_600_000_000_000) as i128, 2 => DAY, 3 => 7 * DAY + r.below(DAY as u64) as i128, _ => 400 * DAY };
+        let rs = match r.below(4) { 0 | 1 => b, 2 => a, _ => *r.pick(&ALL9) };
+        let refe = s2e(&format!("{}:TAI", dstr(inst + gap))).to_time_scale(s2ts(rs));
+        writeln!(out, "precise0 {} {} {} {}", e2s(e), e2s(refe), b, r.below(2)).unwrap();
+    }
+}
+
 pub fn inputs_c05(r: &mut Rng, n: usize, _tier: &str, out: &mut dyn Write) {
+    precise0_lines(r, out, &UNIFORM, &UNIFORM, (n / 100).max(20));
     // symmetry block: for every ordered pair of scales the value whose count in the target scale is the NEGATION of
     // its count in the source scale (v = -(offset difference)/2), +/- 2 ns -- `Duration ==` holds between a duration
     // and its negation within a century of zero, so shortcuts written with `==` misfire exactly there
@@ -315,7 +336,15 @@ pub fn inputs_c05(r: &mut Rng, n: usize, _tier: &str, out: &mut dyn Write) {
                 let c = *r.pick(&["from_tai_duration", "from_tt_duration", "from_gpst_duration", "from_gst_duration", "from_bdt_duration", "from_qzsst_duration"]);
                 writeln!(out, "from_dur {} {}", c, dstr(e)).unwrap()
             }
-            8 => writeln!(out, "refepoch {}", a).unwrap(),
+            8 if r.chance(1, 2) => writeln!(out, "refepoch {}", a).unwrap(),
+            8 => {
+                // the nanosecond counters read a conversion too (to_gpst_nanoseconds of an epoch held in BDT is the GPST count
+                // of that instant): two seeded changes put a GNSS->GNSS shortcut there and were filed under this property
+                let g = *r.pick(&["gpst", "qzsst", "gst", "bdt"]);
+                let gts = match g { "gpst" => "GPST", "qzsst" => "QZSST", "gst" => "GST", _ => "BDT" };
+                let t = ref_off(gts) - ref_off(a) + match r.below(4) { 0 => small_off(r), 1 => NPC - 1 - r.below(1000) as i128, _ => r.below(NPC as u64) as i128 };
+                writeln!(out, "to_ns {} {}:{}", g, dstr(t), a).unwrap()
+            }
             _ => writeln!(out, "to_dur_in {}:{} {}", dstr(e), a, b).unwrap(),
         }
     }
@@ -323,6 +352,8 @@ pub fn inputs_c05(r: &mut Rng, n: usize, _tier: &str, out: &mut dyn Write) {
 
 pub fn inputs_c06(r: &mut Rng, n: usize, tier: &str, out: &mut dyn Write) {
     let leaps = leap_ts();
+    precise0_lines(r, out, &["UTC"], &UNIFORM, (n / 600).max(20));
+    precise0_lines(r, out, &UNIFORM, &["UTC"], (n / 600).max(20));
     // the table through the Iterator protocol: after every number of forward steps, each reading method
     for which in ["builtin", "file"] {
         for k in 0..=43usize {
@@ -450,6 +481,8 @@ pub fn inputs_c06(r: &mut Rng, n: usize, tier: &str, out: &mut dyn Write) {
 
 pub fn inputs_c07(r: &mut Rng, n: usize, tier: &str, out: &mut dyn Write) {
     const DYN: [&str; 2] = ["ET", "TDB"];
+    precise0_lines(r, out, &NONDYN, &DYN, (n / 100).max(20));
+    precise0_lines(r, out, &DYN, &["TAI", "TT", "UTC", "GPST", "GST", "BDT", "QZSST", "ET", "TDB"], (n / 100).max(20));
     // symmetry block: the one place where the dynamical count d (past J2000) and the TAI count of the same instant
     // (past J2000) are each other's NEGATION, d = +(dyn - TAI)/2 -- Duration's `==` holds between a duration and
     // its negation within a century of zero, so a convergence or fast-path test written with `==` misfires exactly
@@ -1301,6 +1334,12 @@ pub fn inputs_c20(r: &mut Rng, n: usize, _tier: &str, out: &mut dyn Write) {
                     2 => -(r.below(NPC as u64) as i128),
                     _ => r.below(NPC as u64) as i128,
                 };
+                if r.chance(1, 4) {
+                    // the same counter through the formatting trait {:o} ("Prints the Epoch in GPS")
+                    let t = ref_off("GPST") - ref_off(ts2) + match r.below(5) { 0 => small_off(r), 1 => NPC + small_off(r), 2 => -(r.below(NPC as u64) as i128), 3 => NPC + r.below(NPC as u64) as i128, _ => r.below(NPC as u64) as i128 };
+                    writeln!(out, "fmt_octal {}:{}", dstr(t), ts2).unwrap();
+                    continue;
+                }
                 writeln!(out, "to_ns {} {}:{}", g, dstr(t), ts2).unwrap()
             }
             _ => {
@@ -1679,6 +1718,19 @@ pub fn exec(op: &str, a: &[&str]) -> Option<String> {
             let mut v = vec![s2e(a[0]), s2e(a[1]), s2e(a[2])];
             v.sort();
             Some(format!("ok {} {} {}", e2s(v[0]), e2s(v[1]), e2s(v[2])))
+        }
+        // Epoch::precise_timescale_conversion with the ZERO polynomial (its correction is then exactly zero) against the plain
+        // conversion it wraps: (result | err, to_time_scale)
+        "fmt_octal" => Some(format!("ok {}", str2hex(&format!("{:o}", s2e(a[0]))))),
+        "precise0" => {
+            let e = s2e(a[0]);
+            let r = s2e(a[1]);
+            let ts = s2ts(a[2]);
+            let y = e.to_time_scale(ts);
+            Some(match e.precise_timescale_conversion(a[3] == "1", r, hifitime::Polynomial::from_constant_offset(Duration::ZERO), ts) {
+                Ok(x) => format!("ok {} {}", e2s(x), e2s(y)),
+                Err(_) => format!("ok err {}", e2s(y)),
+            })
         }
         "ecmp_via" => {
             // compare-after-arithmetic: x = E <how> B as the entry point leaves it; z = the freshly constructed epoch of the
